@@ -152,6 +152,10 @@ impl<'a> PrettyPrinter<'a> {
             children.get(i..=j).unwrap_or_default().iter()
         };
 
+        // A line comment directly before the closing parenthesis must be followed by a line break.
+        let ends_with_line_comment =
+            (children.clone().last()).is_some_and(|child| child.kind() == SyntaxKind::LineComment);
+
         let mut peek_hashed_arg = false;
         let inner = self.convert_flow_like_iter(ctx, children, |ctx, child| {
             let at_hashed_arg = peek_hashed_arg;
@@ -183,10 +187,14 @@ impl<'a> PrettyPrinter<'a> {
             }
         });
         if self.attr_store.is_multiline(args.to_untyped()) {
-            ((self.arena.line_() + inner).nest(self.config.tab_spaces as isize)
-                + self.arena.line_())
-            .group()
-            .parens()
+            let close_sep = if ends_with_line_comment {
+                self.arena.hardline()
+            } else {
+                self.arena.line_()
+            };
+            ((self.arena.line_() + inner).nest(self.config.tab_spaces as isize) + close_sep)
+                .group()
+                .parens()
         } else {
             inner.parens()
         }
